@@ -60,6 +60,30 @@ CHECKS = {
              "between and beyond timestamps x every legal rollback x second collection: kept checkpoint, re-based references, retained "
              "events, exactly-once release, exact state after rollback.",
         note="Rollback driver replicates the static do_rollback/silent_execution logic of process.c."),
+    "C18": dict(
+        engine="seqx", technique="exhaustive enumeration of structured generator states (inverted xoshiro output function) x argument grids "
+        "through the real numerical library, plain and under UBSan",
+        level="model_checking", design_ref="DESIGN.md 4/C18",
+        text="Every boundary raw output (0, 1, 2^64-1, 2^k, 2^k+-1, exponent-boundary neighbours; |B|=203) for Random/Poisson/Expent, B x "
+             "argument grid for RandomRange, B^2 for RandomRangeNonUniform/Normal/Zipf, B^3 for Gamma; ranges, finiteness, generator "
+             "isolation; UBSan as second oracle.",
+        note="Only the first three raw outputs of a call are controlled; documented argument domain."),
+    "C19": dict(
+        engine="seqx", technique="exhaustive enumeration of geometries x sizes x sources x directions x generator states, with "
+        "call-interleaving/rollback sequences, through the real topology library",
+        level="model_checking", design_ref="DESIGN.md 4/C19",
+        text="All 8 geometries, grids up to 4x4 (thorough 6x6), 1..6 (8) regions, every graph on <=3 regions, every source and direction; "
+             "DIRECTION_RANDOM on 1.5k (5.9k) generator states incl. rollback-and-repeat after another LP's call; CountDirections and "
+             "IsNeighbor consistency.",
+        note="Concurrent use is only sampled by a free-running two-thread pass; the memo oracle is sequential."),
+    "C10": dict(
+        engine="seqx", technique="exhaustive enumeration of the vmodel program grammar on the real serial runtime, compared dispatch by "
+        "dispatch with an independent event-list executor",
+        level="model_checking", design_ref="DESIGN.md 4/C10",
+        text="6000 (thorough ~130k) models in canonical order + feature models x 4 configurations: LP_INIT first, per-LP dispatch "
+             "sequences equal to the reference, non-decreasing timestamps, nothing skipped before the stop point, justified and not-early "
+             "stop, LP_FINI once per LP last.",
+        note="Reference shares the handler and msg_is_before with the runtime (C16 covers the relation)."),
 }
 
 NOT_YET = "check not built yet (work in progress; see DESIGN.md section 7)"
